@@ -323,6 +323,7 @@ func genC13(c *Ctx) {
 		}
 	}
 	c13RandFailure(c)
+	c13Keyless(c)
 	// authenticated but malicious key-exchange payloads: a peer that takes part in the exchange puts something
 	// unparsable (or somebody else's key) where its public key and signature belong, encrypted and MACed correctly
 	for _, typ := range []byte{0x11, 0x12} {
@@ -346,6 +347,73 @@ func genC13(c *Ctx) {
 			}
 		}
 	}
+}
+
+// a conversation WITHOUT a long-term key ("with or without long-term keys"): whatever an honest peer or an attacker
+// sends - queries, whitespace tags, a complete key exchange started by the peer, data messages, hostile input - Receive
+// returns (with an error where appropriate) and never panics; and once keys are provided the conversation works
+func c13Keyless(c *Ctx) {
+	for _, pol := range []int{polV3, polV2, polV2 | polV3, polV3 | polWSStart, polV2 | polV3 | polErrStart} {
+		for variant := 0; variant < 4; variant++ {
+			s := newSys([]int{pol, pol}, c.R.U64())
+			s.ps[1].c.SetOurKeys(nil)
+			what := fmt.Sprintf("keyless(policy=%d,variant=%d)", pol, variant)
+			guardedBudget(c, what, nil, 64<<20, 5*time.Second, func() {
+				switch variant {
+				case 0: // a query first (fails for lack of a key), then the peer starts an exchange
+					s.Inject(1, []byte("?OTRv23?"), "WQuery 12")
+					s.Query(1, 2)
+					s.Pump(1, 2, 12)
+				case 1: // the keyless side is asked to start
+					s.Query(2, 1)
+					s.Pump(1, 2, 12)
+				case 2: // whitespace tag, then an exchange, then hostile input
+					s.Send(2, []byte("hello"))
+					s.Pump(1, 2, 12)
+					s.Query(1, 2)
+					s.Pump(1, 2, 12)
+					for k := 0; k < 10; k++ {
+						in := c.hostileWire(s, 1)
+						s.ps[1].c.Receive(in)
+					}
+				default: // the peer's exchange interleaved with queries to the keyless side
+					s.Query(1, 2)
+					for k := 0; k < 6; k++ {
+						if idx := s.next(2); idx >= 0 {
+							s.Deliver(2, idx, 1, MNone)
+						}
+						s.Inject(1, []byte("?OTRv23?"), "WQuery 12")
+						if idx := s.next(1); idx >= 0 {
+							s.Deliver(1, idx, 2, MNone)
+						}
+					}
+				}
+				// with keys the conversation must work
+				s.ps[1].c.SetOurKeys([]otr3.PrivateKey{partyKeys[1]})
+				for w := 1; w <= 2; w++ {
+					s.ps[w].c.End()
+					s.ps[w].pending = len(s.ps[w].outs)
+				}
+				s.tick(200)
+				ok := false
+				if s.Handshake(1, 2) {
+					s.Send(1, []byte("probe"))
+					s.Pump(1, 2, 10)
+					pl := s.ps[2].plains
+					ok = len(pl) > 0 && string(pl[len(pl)-1]) == "probe"
+				}
+				if !ok {
+					c.Violate("unusable-after-hostile-input", what, "after the phase without a long-term key, with keys provided, a key exchange plus one message did not get through", s.trace[len(s.trace)-min2(12, len(s.trace)):])
+				}
+			})
+			if s.panicked {
+				c.Violate("panic", what, "panic inside a scenario call of a conversation without a long-term key", s.trace[len(s.trace)-min2(12, len(s.trace)):])
+			}
+			c.Rep.Evaluations++
+			c.Count("keyless")
+		}
+	}
+	c.Sample(map[string]string{"keyless": "conversation without long-term key: query / peer-started exchange / whitespace start / hostile input; no panic; works once keys are set"})
 }
 
 // randomness failure at the k-th read
